@@ -24,36 +24,65 @@ class World8(R.World):
         return R.World.name(n)
 
 
-def resolve(w, ops):
+WORLD_STEPS = ("classImplements", "classImplementsFirst", "classImplementsOnly")
+
+
+def resolve_op(w, op):
     def one(x):
         if isinstance(x, dict):
             return w.spec_id(R.providedBy(w.objects[x["prov"]]))
         return x
 
-    out = []
-    for op in ops:
-        op = list(op)
-        k = op[0]
-        if k in ("lookup", "lookupAll", "names", "subscriptions"):
-            op[2] = [one(x) for x in op[2]]
-        elif k == "lookup1":
-            op[2] = one(op[2])
-        out.append(op)
-    return out
+    op = list(op)
+    k = op[0]
+    if k in ("lookup", "lookupAll", "names", "subscriptions"):
+        op[2] = [one(x) for x in op[2]]
+    elif k == "lookup1":
+        op[2] = one(op[2])
+    return op
+
+
+def world_step(w, op):
+    """An in-place change of a required-side specification: [kind, class spec id, interface id]."""
+    from zope.interface import classImplements, classImplementsFirst, classImplementsOnly
+    fn = {"classImplements": classImplements, "classImplementsFirst": classImplementsFirst,
+          "classImplementsOnly": classImplementsOnly}[op[0]]
+    fn(w.classes[op[1]], w.specs[op[2]])
+
+
+def snapshot(w, changed):
+    return {"specs": w.observed_specs(), "changed": changed,
+            "obj_provides": [w.spec_id(R.providedBy(o)) for o in w.objects]}
+
+
+def run_case(case):
+    """-> phases (the world as observed while each stretch of the history ran, and which specification was
+    changed in place to get there), the executed ops (symbolic requireds resolved; world steps kept in place)
+    and one answer per registry op."""
+    w = World8(case)
+    phases, ops_out, answers = [], [], []
+    changed = []
+    for op in case["ops"]:
+        if op[0] in WORLD_STEPS:
+            phases.append(snapshot(w, changed))
+            world_step(w, op)
+            changed = [op[1]]
+            ops_out.append(list(op))
+            continue
+        rop = resolve_op(w, op)
+        a = R.run_ops(w, [rop])[0]
+        answers.append(a if all(type(x) is int for x in a) else [3, 1])   # e.g. a None among subscribers' results
+        ops_out.append(rop)
+    phases.append(snapshot(w, changed))
+    return {"phases": phases, "ops": ops_out, "answers": answers,
+            "specs": phases[-1]["specs"], "obj_provides": phases[-1]["obj_provides"]}
 
 
 payload = _boot.read_payload()
 out = []
 for case in payload["cases"]:
     try:
-        w = World8(case)
-        ops = resolve(w, case["ops"])
-        answers = [a if all(type(x) is int for x in a) else [3, 1]     # e.g. a None among subscribers' results
-                   for a in R.run_ops(w, ops)]
-        out.append({"specs": w.observed_specs(),
-                    "obj_provides": [w.spec_id(R.providedBy(o)) for o in w.objects],
-                    "ops": ops,
-                    "answers": answers})
+        out.append(run_case(case))
     except Exception as e:  # noqa
         out.append({"error": "%s: %s" % (type(e).__name__, e)})
 _boot.write_result({"obs": out})
